@@ -39,6 +39,7 @@ Ltac open_objs s :=
   cbn [step];
   repeat match goal with
   | |- context [nth_error (g_objs s) ?k] => destruct (nth_error (g_objs s) k) as [?ob|]
+  | |- context [nth_error (g_dbs s) ?k] => destruct (nth_error (g_dbs s) k) as [?db|]
   | |- context [ob_fitted ?o] => destruct (ob_fitted o)
   end;
   unfold revalidate, new_obj, mark_fitted; cbn [ob_seed];
@@ -49,7 +50,7 @@ Ltac open_objs s :=
 
 Lemma step_threads : forall s o, g_threads (fst (step s o)) = g_threads s.
 Proof.
-  intros s o. destruct o as [d c|d c|d c [z|]|d|k|k|n|[|]|c [z|]|k d|k|k]; try (cbn; reflexivity); open_objs s; reflexivity.
+  intros s o. destruct o as [d c|d c|d c [z|]|d|k|k|n|[|]|c [z|]|k d|k|k|f cfg|k d]; try (cbn; reflexivity); open_objs s; reflexivity.
 Qed.
 
 Lemma run_threads : forall h s, g_threads (fst (run s h)) = g_threads s.
@@ -62,7 +63,7 @@ Qed.
 
 Lemma step_ct_default : forall s o, g_ct_default (fst (step s o)) = g_ct_default s.
 Proof.
-  intros s o. destruct o as [d c|d c|d c [z|]|d|k|k|n|[|]|c [z|]|k d|k|k]; try (cbn; reflexivity); open_objs s; reflexivity.
+  intros s o. destruct o as [d c|d c|d c [z|]|d|k|k|n|[|]|c [z|]|k d|k|k|f cfg|k d]; try (cbn; reflexivity); open_objs s; reflexivity.
 Qed.
 
 (* the shared default list of CalTRACKHourlyModelResults is never written, whatever the library is used for *)
@@ -76,7 +77,7 @@ Qed.
 
 Lemma step_models : forall s o, g_models (fst (step s o)) = g_models s ++ [snd (step s o)].
 Proof.
-  intros s o. destruct o as [d c|d c|d c [z|]|d|k|k|n|[|]|c [z|]|k d|k|k]; try (cbn; reflexivity); open_objs s; reflexivity.
+  intros s o. destruct o as [d c|d c|d c [z|]|d|k|k|n|[|]|c [z|]|k d|k|k|f cfg|k d]; try (cbn; reflexivity); open_objs s; reflexivity.
 Qed.
 
 Lemma run_models : forall h s, g_models (fst (run s h)) = g_models s ++ snd (run s h).
@@ -99,18 +100,18 @@ Qed.
 (* a seeded fit, as coded, does not move numpy's global generator *)
 Lemma clean_keeps_rng : forall s o, rng_clean o = true -> g_rng (fst (step s o)) = g_rng s.
 Proof.
-  intros s o H. destruct o as [d c|d c|d c [z|]|d|k|k|n|[|]|c [z|]|k d|k|k]; cbn in *; try discriminate; try reflexivity.
+  intros s o H. destruct o as [d c|d c|d c [z|]|d|k|k|n|[|]|c [z|]|k d|k|k|f cfg|k d]; cbn in *; try discriminate; try reflexivity.
 Qed.
 
 (* ---- the result of a seeded fit is a function of the operation (and, for CalTRACK, of the pool size) ---- *)
 
 Lemma step_seeded_pure : forall s o, seeded o = true -> snd (step s o) = pure_out (g_threads s) o.
 Proof.
-  intros s o H. destruct o as [d c|d c|d c [z|]|d|k|k|n|[|]|c [z|]|k d|k|k]; cbn in *; try discriminate; reflexivity.
+  intros s o H. destruct o as [d c|d c|d c [z|]|d|k|k|n|[|]|c [z|]|k d|k|k|f cfg|k d]; cbn in *; try discriminate; reflexivity.
 Qed.
 
 Lemma pure_out_threads : forall o t1 t2, thread_sensitive o = false -> pure_out t1 o = pure_out t2 o.
-Proof. intros o t1 t2 H. destruct o as [d c|d c|d c [z|]|d|k|k|n|[|]|c [z|]|k d|k|k]; cbn in *; try discriminate; reflexivity. Qed.
+Proof. intros o t1 t2 H. destruct o as [d c|d c|d c [z|]|d|k|k|n|[|]|c [z|]|k d|k|k|f cfg|k d]; cbn in *; try discriminate; reflexivity. Qed.
 
 Lemma history_independent_same_pool : forall o s1 s2 h1 h2, seeded o = true -> g_threads s1 = g_threads s2 ->
   out (run s1 (h1 ++ [o])) = out (run s2 (h2 ++ [o])).
@@ -164,7 +165,7 @@ Proof.
   cbn [step]. unfold with_result. cbn [snd]. rewrite Hm.
   rewrite nth_error_app2 by (rewrite run_length; lia).
   rewrite run_length, Nat.sub_diag. cbn [nth_error].
-  destruct o as [d c|d c|d c [z|]|d|k|k|n|[|]|c [z|]|k d|k|k]; cbn in *; try discriminate; reflexivity.
+  destruct o as [d c|d c|d c [z|]|d|k|k|n|[|]|c [z|]|k d|k|k|f cfg|k d]; cbn in *; try discriminate; reflexivity.
 Qed.
 
 (* ---- the seed reaches every consumer ---- *)
@@ -253,7 +254,7 @@ Lemma step_keeps_object : forall s o k ob, touches o k = false -> nth_error (g_o
   nth_error (g_objs (fst (step s o))) k = Some ob.
 Proof.
   intros s o k ob Ht Hk.
-  destruct o as [d c|d c|d c [z|]|d|j|j|n|[|]|c [z|]|j d|j|j]; try (cbn; exact Hk).
+  destruct o as [d c|d c|d c [z|]|d|j|j|n|[|]|c [z|]|j d|j|j|f cfg|j d]; try (cbn; exact Hk).
   - cbn. apply nth_error_app_some. exact Hk.
   - cbn. apply nth_error_app_some. exact Hk.
   - cbn [touches] in Ht. apply Nat.eqb_neq in Ht. cbn [step].
@@ -267,6 +268,7 @@ Proof.
     destruct (nth_error (g_objs s) j) as [o1|]; [|cbn; exact Hk].
     destruct (ob_fitted o1); [|cbn; exact Hk].
     unfold revalidate, new_obj. destruct (ob_seed o1); cbn; apply nth_error_app_some; rewrite set_nth_other by exact Ht; exact Hk.
+  - cbn [step]. destruct (nth_error (g_dbs s) j); cbn; exact Hk.
 Qed.
 
 Lemma run_keeps_object : forall h s k ob, forallb (fun o => negb (touches o k)) h = true ->
@@ -307,4 +309,130 @@ Proof.
       rewrite Nat.sub_diag. reflexivity. }
     pose proof (run_keeps_object h s1 _ ob H H1) as H2. destruct (run s1 h) as [s2 rs]. exact H2. }
   cbn [step]. rewrite Hk. reflexivity.
+Qed.
+
+(* ---- re-using one model object: its own prior state is not read by a fit ---- *)
+
+Lemma set_nth_same : forall (A : Type) (l : list A) k (x y : A), nth_error l k = Some y -> nth_error (set_nth k x l) k = Some x.
+Proof.
+  induction l as [|a l IH]; intros k x y H; [destruct k; discriminate|].
+  destruct k; cbn in *; [reflexivity|]. eapply IH. exact H.
+Qed.
+
+(* what a fit reads of an hourly object *)
+Definition ob_core (o : hobj) := (ob_cfg o, ob_seed o, ob_en o, ob_eff o).
+
+(* whatever is done in the process -- including fitting, serialising and reloading THIS object -- a seeded object keeps its core *)
+Lemma step_keeps_seeded_core : forall s o k ob z, nth_error (g_objs s) k = Some ob -> ob_seed ob = Some z ->
+  exists ob', nth_error (g_objs (fst (step s o))) k = Some ob' /\ ob_core ob' = ob_core ob.
+Proof.
+  intros s o k ob z Hk Hz.
+  destruct (touches o k) eqn:Ht.
+  - destruct o as [d c|d c|d c [z0|]|d|j|j|n|[|]|c [z0|]|j d|j|j|f cfg|j d]; try discriminate;
+      cbn [touches] in Ht; apply Nat.eqb_eq in Ht; subst j; cbn [step]; rewrite Hk.
+    + unfold revalidate, mark_fitted. cbn [ob_seed]. rewrite Hz. cbn.
+      eexists. split; [eapply set_nth_same; exact Hk|]. unfold ob_core. cbn. rewrite ?Hz. reflexivity.
+    + destruct (ob_fitted ob).
+      * unfold revalidate. rewrite Hz. cbn. eexists. split; [eapply set_nth_same; exact Hk|unfold ob_core; cbn; rewrite ?Hz; reflexivity].
+      * cbn. exists ob. split; [exact Hk|reflexivity].
+    + destruct (ob_fitted ob).
+      * unfold revalidate, new_obj. rewrite Hz. cbn. eexists. split.
+        { apply nth_error_app_some. eapply set_nth_same. exact Hk. }
+        unfold ob_core; cbn; rewrite ?Hz; reflexivity.
+      * cbn. exists ob. split; [exact Hk|reflexivity].
+  - exists ob. split; [apply step_keeps_object; assumption|reflexivity].
+Qed.
+
+Lemma run_keeps_seeded_core : forall h s k ob z, nth_error (g_objs s) k = Some ob -> ob_seed ob = Some z ->
+  exists ob', nth_error (g_objs (fst (run s h))) k = Some ob' /\ ob_core ob' = ob_core ob.
+Proof.
+  induction h as [|o h IH]; intros s k ob z Hk Hz; [exists ob; split; [exact Hk|reflexivity]|].
+  cbn [run]. destruct (step s o) as [s1 r] eqn:E.
+  destruct (step_keeps_seeded_core s o k ob z Hk Hz) as [ob1 [H1 C1]]. rewrite E in H1. cbn [fst] in H1.
+  assert (Hz1 : ob_seed ob1 = Some z). { unfold ob_core in C1. inversion C1. congruence. }
+  destruct (IH s1 k ob1 z H1 Hz1) as [ob2 [H2 C2]].
+  destruct (run s1 h) as [s2 rs]. exists ob2. split; [exact H2|congruence].
+Qed.
+
+Lemma fitobj_reads_core : forall s k d ob, nth_error (g_objs s) k = Some ob ->
+  snd (step s (FitObj k d)) =
+  RFit Hourly d (h_id (ob_cfg ob)) 0 (CElasticNet (Some (ob_en ob, 0)) :: kmeans_consumers (ob_eff ob) 0 (h_recluster (ob_cfg ob))).
+Proof.
+  intros s k d ob H. cbn [step]. rewrite H. unfold revalidate, mark_fitted. cbn [ob_seed]. destruct (ob_seed ob); reflexivity.
+Qed.
+
+(* construct a seeded model, then ANYTHING (fits of this very object on other data or the same data included), then fit:
+   the result of a fresh object fitted at once *)
+Lemma refit_equals_fresh : forall s h c z d,
+  out (run s (NewHourly c (Some z) :: h ++ [FitObj (length (g_objs s)) d])) =
+  RFit Hourly d (h_id c) 0 (hourly_consumers c (SdLit z)).
+Proof.
+  intros s h c z d.
+  change (NewHourly c (Some z) :: h ++ [FitObj (length (g_objs s)) d])
+    with ((NewHourly c (Some z) :: h) ++ [FitObj (length (g_objs s)) d]).
+  rewrite out_snoc.
+  set (ob := {| ob_cfg := c; ob_seed := Some z; ob_en := SdLit z; ob_eff := SdLit z; ob_fitted := false |}).
+  assert (Hk : exists ob', nth_error (g_objs (fst (run s (NewHourly c (Some z) :: h)))) (length (g_objs s)) = Some ob' /\
+                           ob_core ob' = ob_core ob).
+  { cbn [run]. destruct (step s (NewHourly c (Some z))) as [s1 r] eqn:E.
+    assert (H1 : nth_error (g_objs s1) (length (g_objs s)) = Some ob).
+    { change s1 with (fst (s1, r)). rewrite <- E. cbn. rewrite nth_error_app2 by apply Nat.le_refl.
+      rewrite Nat.sub_diag. reflexivity. }
+    destruct (run_keeps_seeded_core h s1 _ ob z H1 eq_refl) as [ob2 [H2 C2]].
+    destruct (run s1 h) as [s2 rs]. exists ob2. split; assumption. }
+  destruct Hk as [ob' [Hk C]]. rewrite (fitobj_reads_core _ _ _ ob' Hk).
+  unfold ob_core in C. subst ob. cbn in C. injection C as Hc Hs He Hf. rewrite Hc, He, Hf. reflexivity.
+Qed.
+
+(* daily / billing objects *)
+Lemma step_keeps_db : forall s o k ob, nth_error (g_dbs s) k = Some ob ->
+  exists ob', nth_error (g_dbs (fst (step s o))) k = Some ob' /\ db_fam ob' = db_fam ob /\ db_cfg ob' = db_cfg ob.
+Proof.
+  intros s o k ob Hk.
+  destruct o as [d c|d c|d c [z0|]|d|j|j|n|[|]|c [z0|]|j d|j|j|f cfg|j d];
+    try (exists ob; split; [cbn; exact Hk|split; reflexivity]).
+  - exists ob. split; [|split; reflexivity]. cbn [step].
+    destruct (nth_error (g_objs s) j) as [o1|]; [|cbn; exact Hk].
+    unfold revalidate, mark_fitted. cbn [ob_seed]. destruct (ob_seed o1); cbn; exact Hk.
+  - exists ob. split; [|split; reflexivity]. cbn [step].
+    destruct (nth_error (g_objs s) j) as [o1|]; [|cbn; exact Hk].
+    destruct (ob_fitted o1); [|cbn; exact Hk]. unfold revalidate. destruct (ob_seed o1); cbn; exact Hk.
+  - exists ob. split; [|split; reflexivity]. cbn [step].
+    destruct (nth_error (g_objs s) j) as [o1|]; [|cbn; exact Hk].
+    destruct (ob_fitted o1); [|cbn; exact Hk]. unfold revalidate, new_obj. destruct (ob_seed o1); cbn; exact Hk.
+  - exists ob. split; [|split; reflexivity]. cbn. apply nth_error_app_some. exact Hk.
+  - cbn [step]. destruct (nth_error (g_dbs s) j) as [o1|] eqn:Ej; [|exists ob; split; [cbn; exact Hk|split; reflexivity]].
+    destruct (Nat.eq_dec j k) as [->|Hne].
+    + rewrite Hk in Ej. inversion Ej; subst o1. eexists. split; [cbn; eapply set_nth_same; exact Hk|split; reflexivity].
+    + exists ob. split; [cbn; rewrite set_nth_other by exact Hne; exact Hk|split; reflexivity].
+Qed.
+
+Lemma run_keeps_db : forall h s k ob, nth_error (g_dbs s) k = Some ob ->
+  exists ob', nth_error (g_dbs (fst (run s h))) k = Some ob' /\ db_fam ob' = db_fam ob /\ db_cfg ob' = db_cfg ob.
+Proof.
+  induction h as [|o h IH]; intros s k ob Hk; [exists ob; split; [exact Hk|split; reflexivity]|].
+  cbn [run]. destruct (step s o) as [s1 r] eqn:E.
+  destruct (step_keeps_db s o k ob Hk) as [ob1 [H1 [F1 C1]]]. rewrite E in H1. cbn [fst] in H1.
+  destruct (IH s1 k ob1 H1) as [ob2 [H2 [F2 C2]]].
+  destruct (run s1 h) as [s2 rs]. exists ob2. split; [exact H2|split; congruence].
+Qed.
+
+(* fit(A) ... fit(B) on ONE daily/billing object: the last fit is the fit of a fresh object *)
+Lemma refit_db_equals_fresh : forall s h f cfg d,
+  out (run s (NewDB f cfg :: h ++ [FitDB (length (g_dbs s)) d])) = RFit f d cfg (thread_class f (g_threads s)) [].
+Proof.
+  intros s h f cfg d.
+  change (NewDB f cfg :: h ++ [FitDB (length (g_dbs s)) d]) with ((NewDB f cfg :: h) ++ [FitDB (length (g_dbs s)) d]).
+  rewrite out_snoc.
+  set (ob := {| db_fam := f; db_cfg := cfg; db_last := None |}).
+  assert (Hk : exists ob', nth_error (g_dbs (fst (run s (NewDB f cfg :: h)))) (length (g_dbs s)) = Some ob' /\
+                           db_fam ob' = f /\ db_cfg ob' = cfg).
+  { cbn [run]. destruct (step s (NewDB f cfg)) as [s1 r] eqn:E.
+    assert (H1 : nth_error (g_dbs s1) (length (g_dbs s)) = Some ob).
+    { change s1 with (fst (s1, r)). rewrite <- E. cbn. rewrite nth_error_app2 by apply Nat.le_refl.
+      rewrite Nat.sub_diag. reflexivity. }
+    destruct (run_keeps_db h s1 _ ob H1) as [ob2 [H2 [F2 C2]]].
+    destruct (run s1 h) as [s2 rs]. exists ob2. split; [exact H2|split; assumption]. }
+  destruct Hk as [ob' [Hk [Hf Hc]]]. cbn [step]. rewrite Hk. cbn [snd with_dbs with_result]. rewrite Hf, Hc.
+  rewrite run_threads. reflexivity.
 Qed.
